@@ -12,7 +12,10 @@ import (
 	corev1 "k8s.io/api/core/v1"
 	netv1 "k8s.io/api/networking/v1"
 	apiequality "k8s.io/apimachinery/pkg/api/equality"
+	"k8s.io/apimachinery/pkg/apis/meta/v1/unstructured"
 	gatewayv1beta1 "sigs.k8s.io/gateway-api/apis/v1beta1"
+
+	"verifharness/lib"
 )
 
 // Residue lists what a finished / removed rollout must not leave behind and what must be back to the
@@ -23,6 +26,7 @@ type Baseline struct {
 	Route          *gatewayv1beta1.HTTPRoute
 	WorkloadLabels map[string]string
 	WorkloadAnnos  map[string]string
+	VirtualService map[string]interface{} // spec of the user's VirtualService (custom provider)
 }
 
 func CaptureBaseline(w *World, sc *Scenario) *Baseline {
@@ -41,6 +45,9 @@ func CaptureBaseline(w *World, sc *Scenario) *Baseline {
 	}
 	if v := ViewWorkload(w, sc); v != nil {
 		b.WorkloadLabels, b.WorkloadAnnos = v.Labels, v.Annotations
+	}
+	if vs := GetVirtualService(w, sc.ns()); vs != nil {
+		b.VirtualService, _, _ = unstructured.NestedMap(vs.Object, "spec")
 	}
 	return b
 }
@@ -88,6 +95,7 @@ func Residue(w *World, sc *Scenario, base *Baseline) []string {
 			out = append(out, "HTTPRoute rules differ from the user's")
 		}
 	}
+	out = append(out, virtualServiceResidue(w, sc, base)...)
 	if v := ViewWorkload(w, sc); v != nil {
 		for _, m := range rolloutMarkers {
 			if _, has := v.Annotations[m]; has {
@@ -122,6 +130,27 @@ func Residue(w *World, sc *Scenario, base *Baseline) []string {
 		}
 	}
 	sort.Strings(out)
+	return out
+}
+
+// virtualServiceResidue: the custom (Lua) provider must have restored the user's VirtualService and removed the
+// annotation in which it keeps the original.
+func virtualServiceResidue(w *World, sc *Scenario, base *Baseline) []string {
+	if base == nil || base.VirtualService == nil {
+		return nil
+	}
+	var out []string
+	vs := GetVirtualService(w, sc.ns())
+	if vs == nil {
+		return []string{"the user's VirtualService is gone"}
+	}
+	spec, _, _ := unstructured.NestedMap(vs.Object, "spec")
+	if lib.J(spec) != lib.J(base.VirtualService) {
+		out = append(out, "VirtualService spec differs from the user's: "+lib.J(spec))
+	}
+	if _, has := vs.GetAnnotations()["rollouts.kruise.io/original-spec-configuration"]; has {
+		out = append(out, "VirtualService still carries the saved original configuration annotation")
+	}
 	return out
 }
 
@@ -178,7 +207,7 @@ func (m *ExitMonitor) OnState(x *Ctx, quiescent bool) {
 
 func residueClass(res []string) string {
 	first := res[0]
-	for _, w := range []string{"BatchRelease", "canary Service", "canary Ingress", "canary Deployment", "stable Service selector", "stable Ingress", "annotation", "paused", "partition", "converge"} {
+	for _, w := range []string{"BatchRelease", "canary Service", "canary Ingress", "canary Deployment", "stable Service selector", "stable Ingress", "VirtualService", "annotation", "paused", "partition", "converge"} {
 		if strings.Contains(first, w) {
 			return strings.ReplaceAll(w, " ", "-")
 		}
@@ -187,7 +216,10 @@ func residueClass(res []string) string {
 }
 
 // FinalizerMonitor (C18): the controllers drop their own finalizer only when cleanup has completed.
-type FinalizerMonitor struct{ BaseMonitor }
+type FinalizerMonitor struct {
+	BaseMonitor
+	Base *Baseline // the user's gateway objects (for the TrafficRouting custom resource's cleanup); may be nil
+}
 
 func (FinalizerMonitor) ID() string { return "C18" }
 
@@ -200,7 +232,7 @@ func hasFinalizer(list []string, f string) bool {
 	return false
 }
 
-func (FinalizerMonitor) OnWrite(x *Ctx, w *Write) {
+func (m FinalizerMonitor) OnWrite(x *Ctx, w *Write) {
 	if !isController(w.Actor) || w.Before == nil {
 		return
 	}
@@ -246,6 +278,34 @@ func (FinalizerMonitor) OnWrite(x *Ctx, w *Write) {
 					sig += "/after-workload-not-found-reset"
 				}
 				x.Violate(sig, "Rollout finalizer removed while cleanup is incomplete: "+strings.Join(res, "; "))
+			}
+		}
+	case "trafficroutings":
+		if hasFinalizer(before, util.TrafficRoutingFinalizer) && !hasFinalizer(after, util.TrafficRoutingFinalizer) {
+			x.Count("C18 trafficrouting finalizer removals judged")
+			var res []string
+			// what the TrafficRouting controller did to the user's gateway objects must have been undone; objects it
+			// created carry an owner reference to the TrafficRouting and are collected by the garbage collector
+			if m.Base != nil && m.Base.Route != nil {
+				rt := &gatewayv1beta1.HTTPRoute{}
+				if x.W.Get(rt, sc.ns(), AppName) && !routeRulesEquivalent(rt.Spec.Rules, m.Base.Route.Spec.Rules) {
+					res = append(res, "the HTTPRoute still carries the canary routing (rules differ from the user's)")
+				}
+			}
+			if m.Base != nil && m.Base.Ingress != nil {
+				ing := &netv1.Ingress{}
+				if x.W.Get(ing, sc.ns(), AppName) && (!apiequality.Semantic.DeepEqual(ing.Spec, m.Base.Ingress.Spec) || !apiequality.Semantic.DeepEqual(ing.Annotations, m.Base.Ingress.Annotations)) {
+					res = append(res, "the stable Ingress differs from the user's")
+				}
+			}
+			res = append(res, virtualServiceResidue(x.W, sc, m.Base)...)
+			for _, o := range x.W.Store.PeekAll("ingresses") {
+				if accessor(o).GetName() == AppName+"-canary" && len(accessor(o).GetOwnerReferences()) == 0 {
+					res = append(res, "canary Ingress exists without an owner")
+				}
+			}
+			if len(res) > 0 {
+				x.Violate("C18/early/trafficrouting-finalizer", "TrafficRouting finalizer removed while cleanup is incomplete: "+strings.Join(res, "; "))
 			}
 		}
 	case "batchreleases":
